@@ -134,6 +134,8 @@ func TestC05(t *testing.T) {
 		"wait path {pipeline sync, pipeline queued, DoMulti, blocking-pool wait, cache-flight waiter (DoCache, DoMultiCache, MGET), retry back-off, slow dial} x fault {server never answers, answers after the deadline, LOADING forever, connection dropped} x "+
 			"context {deadline d, manual cancel at instant T, already done} x queue {ring, flowbuffer} x AlwaysPipelining, each as one history in a synctest bubble; oracle on virtual instants: return time <= deadline (cancel: == T), an already-done context sends nothing (server log); "+
 			"a case = (scenario, path, deadline, outcome); "+
+			"plus a deadline call {Do, DoMulti, Do blocking} on a dedicated connection (served synchronously unless AlwaysPipelining; measured) x server {never answers, answers after 2d} x a concurrent use of the same DedicatedClient "+
+			"{SetPubSubHooks, SetPubSubHooks twice, SetOnInvalidations, second Do / DoMulti / Receive with deadlines of their own} at an instant in [0,d) after the call started to wait; oracle: every call is back by its deadline instant; "+
 			"plus blocking-pool waiters against the wake-up for a done context: context {deadline, manual cancel} x the instant it is done falls {between the waiter's test of the context and its parking (waiter held at the pool's monitor hook, pool lock held, like a preempted goroutine), after it parked} x "+
 			"pool capacity 1-3 (all held) x 1-3 waiters (the others done at the same instant or later) x pool user {Do blocking, DoMulti blocking, DoStream}; oracle: every waiter is back by the instant its context was done")
 	defer run.Finish()
@@ -146,12 +148,18 @@ func TestC05(t *testing.T) {
 	if !run.Quick() {
 		ds = append(ds, 7*time.Millisecond, 999*time.Millisecond, 10*time.Second, 45*time.Second)
 	}
+	dedRng := run.Rand("dedicated-concurrent-op")
 	for _, q := range []string{"flowbuffer", "ring"} {
 		for _, always := range []bool{false, true} {
 			base := opts{queue: q, always: always, poolSize: 1, multiplex: -1}
 			tag := fmt.Sprintf("%s/always=%v", q, always)
-			for _, d := range ds {
+			for di, d := range ds {
 				d := d
+				// a deadline call on a dedicated connection (served synchronously unless AlwaysPipelining) while the same
+				// DedicatedClient is used concurrently (dedicated_test.go)
+				for _, dc := range dedCases(dedRng, d, di) {
+					dedicatedConcurrent(run, t, tag, base, dc)
+				}
 				// pipeline wait: the server never answers
 				scenario(run, t, "stalled-server/"+tag, base, func(e *env) {
 					e.srv.Plan(stallUID("stall-"))
@@ -335,5 +343,6 @@ func TestC05(t *testing.T) {
 	for _, rc := range raceCases(run.Rand("pool-wakeup-race"), run.N(1, 12)) {
 		poolWakeupRace(run, t, rc)
 	}
-	run.Require("deadline_calls", "manual_cancels", "already_done_calls", "retry_scenarios", "pool_race_context_done_between_check_and_park", "pool_race_context_done_after_park")
+	run.Require("deadline_calls", "manual_cancels", "already_done_calls", "retry_scenarios", "pool_race_context_done_between_check_and_park", "pool_race_context_done_after_park",
+		"dedicated_sync_served_deadline_call_with_concurrent_op", "dedicated_sync_served_with_SetPubSubHooks", "dedicated_sync_served_with_SetOnInvalidations", "dedicated_sync_served_with_Do", "dedicated_sync_served_with_Receive")
 }
